@@ -34,6 +34,10 @@ type mgmtVariant struct {
 	pending *SysSpec
 	// raceRoute: route on which a message arrives while the mutation is in flight
 	raceRoute string
+	// wantRefused: the pending edit needs a restart, so the reload that ends the
+	// mutation cannot succeed: the call is refused, the operator's content is back
+	// and the process behaves as before.
+	wantRefused bool
 }
 
 func mgmtVariantByName(name string) *mgmtVariant {
@@ -62,6 +66,13 @@ func mgmtVariantByName(name string) *mgmtVariant {
 		p.PullTokens = []string{"pull-token-2"}
 		p.Routes = append(p.Routes, RouteSpec{Path: "/d", PullPath: "/pull/d", PullTokens: []string{"d-token"}})
 		return &mgmtVariant{spec: base(), pending: p, method: "PUT", app: "billing", ep: "invoice", route: "/b", wantMap: true}
+	case "upsert-pending-restart-edit":
+		// the operator's unreloaded edit changes queue limits (applied only by a
+		// restart) and rotates the global pull token (applied live)
+		p := base()
+		p.PullTokens = []string{"pull-token-2"}
+		p.MaxDepth, p.DropPolicy = 7, "reject"
+		return &mgmtVariant{spec: base(), pending: p, method: "PUT", app: "billing", ep: "invoice", route: "/b", wantMap: true, wantRefused: true}
 	case "delete-racing-message":
 		s := base()
 		s.Routes[0].App, s.Routes[0].Endpoint = "billing", "invoice"
@@ -217,6 +228,20 @@ func mgmtBaselineFor(name string) *mgmtBaseline {
 			}
 		}
 	}
+	if v.wantRefused {
+		// the content the mutation writes before its reload is refused: what the
+		// same call produces on a node that runs the operator's edit already
+		v2 := *v
+		v2.spec, v2.pending, v2.wantRefused = v.pending, nil, false
+		r2, trouble2 := v2.run(-1, nil, -1)
+		if trouble2 != "" {
+			b.trouble = trouble2
+			return b
+		}
+		b.newBytes, _ = os.ReadFile(r2.w.cfgPath)
+		r2.w.Close()
+		return b
+	}
 	if r.status != 200 {
 		b.trouble = fmt.Sprintf("fault-free %s answered %d %s", name, r.status, r.body)
 	}
@@ -321,6 +346,33 @@ func runMgmtCase(res *Result, s Step) {
 			checkImg(st, "a power loss after the call returned")
 		}
 		ok2xx := r.status >= 200 && r.status < 300
+		if v.wantRefused {
+			res.probe("mgmt.pending_restart_edit")
+			if ok2xx {
+				addV("C18.mgmt.restart_required_applied", "%s: answered %d although the file differs from the running configuration by a setting that needs a restart (queue_limits): the reload that ends the mutation cannot have succeeded", s.Route, r.status)
+			} else if !bytes.Equal(b, r.old) {
+				addV("C18.mgmt.notrolledback", "%s: answered %d (%s) because the reload needs a restart, but the previous content (the operator's edit) is not back", s.Route, r.status, truncS([]byte(r.body), 120))
+			}
+			// running behaviour exactly as before: the Pull API honours the tokens
+			// the process was started with, not the file's
+			for _, pr := range []struct {
+				tok  string
+				want int
+			}{{"pull-token-1", 200}, {"pull-token-2", 401}, {"", 401}} {
+				hdrs := []KV{{"Content-Type", "application/json"}}
+				if pr.tok != "" {
+					hdrs = append(hdrs, KV{"Authorization", "Bearer " + pr.tok})
+				}
+				preq, _ := NewRequest("POST", "/pull/a/dequeue", "pull.internal", "10.9.9.9:5", hdrs, []byte(`{"batch":1,"lease_ttl":"1s"}`))
+				if got := r.w.Do("mgmtpull", r.w.Pull, preq).Status; got != pr.want {
+					addV("C18.mgmt.running_changed", "%s: answered %d; the reload needs a restart, so running behaviour stays as before, but dequeue on /pull/a with token %q is answered %d (before: %d)", s.Route, r.status, pr.tok, got, pr.want)
+				}
+			}
+			if r.mapped {
+				addV("C18.mgmt.running_changed", "%s: answered %d but the running configuration now maps %s/%s (%s)", s.Route, r.status, v.app, v.ep, r.mappedTo)
+			}
+			return
+		}
 		if ok2xx {
 			res.probe("mgmt.applied")
 			if !bytes.Equal(b, base.newBytes) {
@@ -408,6 +460,8 @@ func EnumMgmtCases() []*Program {
 	}
 	// a message arrives on the endpoint's current route while a delete / move is
 	// in flight, after each statement of mutateManagedEndpointConfig in turn
+	// the file is ahead of the running configuration by an edit that needs a restart
+	out = append(out, mk("upsert-pending-restart-edit", "none", 0))
 	for _, variant := range []string{"delete-racing-message", "move-racing-message"} {
 		out = append(out, mk(variant, "none", 0))
 		for k := 0; k <= 45; k++ {
@@ -424,7 +478,7 @@ func init() {
 		Enum:       EnumMgmtCases,
 		Level:      "fault_enumeration",
 		NonTrivial: func(p *Program, r *Result) bool { return r.Probes["mgmt.image"] > 0 },
-		Rule:       "W-mgmt, exhaustive: PUT / DELETE of an application/endpoint mapping through the real Admin handler on a fresh node (5 variants: upsert, delete, move, upsert on SQLite, upsert while the file holds an operator's edit that nobody has reloaded yet - rotated global pull token, new route with tokens of its own: after a 2xx the Pull API honours exactly the token lists the file declares; delete and move while a message arrives on the endpoint's current route after each statement of mutateManagedEndpointConfig in turn: a refused call leaves file and running mapping as they were), the os calls of mutateManagedEndpointConfig / writeFileAtomic / reloadConfig rerouted to simfs: no fault; EIO/ENOSPC/EACCES at every call; a crash before every call x every post-crash image; the reload's read failing (rollback path) followed by a crash before every later call. Oracle: the config path always holds the complete old or the complete new content, the new content compiles, a 2xx answer means file = new and running = new, any other answer means the previous content is back and the running mapping unchanged, and the file still reloads",
+		Rule:       "W-mgmt, exhaustive: PUT / DELETE of an application/endpoint mapping through the real Admin handler on a fresh node (5 variants: upsert, delete, move, upsert on SQLite, upsert while the file holds an operator's edit that nobody has reloaded yet - rotated global pull token, new route with tokens of its own: after a 2xx the Pull API honours exactly the token lists the file declares; upsert while the file is ahead of the running configuration by an edit that needs a restart: the call is refused, the operator's content is back, the Pull API honours the old tokens; delete and move while a message arrives on the endpoint's current route after each statement of mutateManagedEndpointConfig in turn: a refused call leaves file and running mapping as they were), the os calls of mutateManagedEndpointConfig / writeFileAtomic / reloadConfig rerouted to simfs: no fault; EIO/ENOSPC/EACCES at every call; a crash before every call x every post-crash image; the reload's read failing (rollback path) followed by a crash before every later call. Oracle: the config path always holds the complete old or the complete new content, the new content compiles, a 2xx answer means file = new and running = new, any other answer means the previous content is back and the running mapping unchanged, and the file still reloads",
 		RealStub: map[string]string{
 			"admin.Server management handlers, app.mutateManagedEndpointConfig, applyManagedEndpointUpsert/Delete, config.Format/Parse/Compile, writeFileAtomic, reloadConfig": "real (node assembled by app.VerifNewNode; os calls rerouted to verifos by the check-time rewrite)",
 			"file system durability": "simulated (simfs journal)",
